@@ -980,11 +980,10 @@ namespace awkward {
     }
     else {
       ContentPtr next = content_.get()->num(posaxis, depth + 1);
-      Index64 offsets = compact_offsets64(true);
-      return std::make_shared<ListOffsetArray64>(Identities::none(),
-                                                 util::Parameters(),
-                                                 offsets,
-                                                 next);
+      return std::make_shared<ListOffsetArrayOf<T>>(Identities::none(),
+                                                    util::Parameters(),
+                                                    offsets_,
+                                                    next);
     }
   }
 
